@@ -197,6 +197,14 @@ theorem postcondition_decided_means_return_not_evaluated (pre post : List Pred) 
     (rfRun pre post lk crud).out = .decided d ∧ Ev.returnValue ∉ (rfRun pre post lk crud).trace := by
   cases crud <;> cases lk <;> simp_all [rfRun, Crud.trace, Crud.isOk, Lookup.trace]
 
+/-- in particular for `deleteIfExists` with the object already gone (an Ok result that is the empty
+    map): the postconditions are still evaluated and decide -/
+theorem postconditions_checked_for_deleted_object (pre post : List Pred) (d : Decision)
+    (hpre : decide pre = none) (h : decide post = some d) :
+    (rfRun pre post .notNeeded .deletedAbsent).out = .decided d ∧
+    Ev.postconditions ∈ (rfRun pre post .notNeeded .deletedAbsent).trace := by
+  simp [rfRun, hpre, h, Crud.isOk, Crud.trace, Lookup.trace]
+
 /-- conversely the discovery does happen once the preconditions continue (the theorem above is not
     vacuous), and a failing discovery is an outcome of the body, never of the preconditions -/
 theorem continue_means_discovery_happens (pre post : List Pred) (crud : Crud) (h : decide pre = none) :
